@@ -72,7 +72,10 @@ def strat_trees(draw, tier):
     pool = [[0x10, 0xf0], [0x20, 0xf0], [0x0, 0x0], [0xffff0000, 0xffff0000]]
     for i in range(n):
         keys.append(draw(st.sampled_from(pool[:max(1, (n + 1) // 2)] + pool)))
-    return {"w": w, "h": h, "trees": trees, "keys": keys}
+    return {"w": w, "h": h, "trees": trees, "keys": keys,
+            # keys are usually allocated for every net of the application,
+            # also for those that were not routed (yet)
+            "unrouted_keys": draw(st.integers(0, 2))}
 
 
 def _prune(t):
@@ -114,6 +117,8 @@ def check_trees(case):
     nets = [Net(object(), []) for _ in case["trees"]]
     routes = dict((n, build_tree(t)) for n, t in zip(nets, case["trees"]))
     keys = dict((n, tuple(k)) for n, k in zip(nets, case["keys"]))
+    for i in range(case.get("unrouted_keys", 0)):
+        keys[Net(object(), [])] = (0x700 + i, 0xfff)
     # expected
     expect = {}
     conflict = False
@@ -173,6 +178,67 @@ def check_trees(case):
                 kinds.add("core+link")
     return {"nontrivial": "core+link" in kinds or shared,
             "classes": sorted(kinds) + (["shared-key"] if shared else [])}
+
+
+# ------------------------------------------- (a') a route of a thousand hops
+
+def enum_chain(tier, shard, nshards):
+    sizes = [(36, 36), (50, 25), (24, 60), (1100, 1), (34, 33)]
+    if tier == "thorough":
+        sizes += [(64, 48), (3000, 1)]
+    for i, (w, h) in enumerate(sizes):
+        if i % nshards == shard:
+            yield {"w": w, "h": h, "leaf": 6 + (i % 18)}
+
+
+def check_chain(case):
+    """One net snaking through every chip of a w x h mesh: the tree is a
+    chain of w*h - 1 hops (built without recursion)."""
+    from rig.netlist import Net
+    from rig.place_and_route.routing_tree import RoutingTree
+    from rig.routing_table import routing_tree_to_tables, Routes
+    w, h = case["w"], case["h"]
+    path = []
+    for y in range(h):
+        xs = range(w) if y % 2 == 0 else range(w - 1, -1, -1)
+        path += [(x, y) for x in xs]
+    node = None
+    direction = None
+    expect = {}
+    for i in range(len(path) - 1, -1, -1):
+        chip = path[i]
+        t = RoutingTree(chip)
+        if node is None:
+            t.children.append((Routes(case["leaf"]), object()))
+            out = case["leaf"]
+        else:
+            nxt = path[i + 1]
+            d = (nxt[0] - chip[0], nxt[1] - chip[1])
+            out = {(1, 0): 0, (0, 1): 2, (-1, 0): 3}[d]
+            t.children.append((Routes(out), node))
+        expect[chip] = out
+        node = t
+    net = Net(object(), [])
+    with sut("routing_tree_to_tables"):
+        tables = routing_tree_to_tables({net: node}, {net: (0xbeef, 0xffff)})
+    require(set(map(tuple, tables)) == set(expect), "tables are not produced "
+            "for exactly the chips the tree visits",
+            {"tables": len(tables), "chips": len(expect)})
+    arrived = {path[0]: None}
+    for a, b in zip(path, path[1:]):
+        arrived[b] = (expect[a] + 3) % 6
+    for chip, table in tables.items():
+        chip = tuple(chip)
+        require(len(table) == 1 and (table[0].key, table[0].mask) ==
+                (0xbeef, 0xffff), "a chip of the route does not have exactly "
+                "one entry with the net's key and mask", {"chip": list(chip)})
+        e = table[0]
+        require(set(int(r) for r in e.route) == {expect[chip]} and
+                set(None if s_ is None else int(s_) for s_ in e.sources) ==
+                {arrived[chip]}, "an entry's route or sources are not the "
+                "directions the tree leaves / enters the chip by",
+                {"chip": list(chip)})
+    return {"nontrivial": True, "classes": ["hops>=1000"]}
 
 
 # ------------------------------------------------------ (b) loading tables
@@ -351,6 +417,11 @@ CLAUSES = [
                 "and link routes",
            examples={"quick": 1500, "thorough": 15000},
            shards={"quick": 4, "thorough": 16}),
+    Clause("thousand-hops", check_chain, enumerate=enum_chain,
+           rule="one net snaking through every chip of a mesh of 1100-1300 "
+                "(thorough: 3000) chips, i.e. a tree more than a thousand "
+                "hops deep; every case counts",
+           shards={"quick": 5, "thorough": 7}),
     Clause("load-and-read-back", check_load, strategy=strat_load,
            rule="tables of 1-1024 entries over all 24 "
                 "route bits and arbitrary key/mask, loaded through the three "
